@@ -651,6 +651,7 @@ template <class G> int runOne(const std::string &prop, const std::string &name, 
     rep.config = name + "/" + source + (args.has("n") ? args.get("n") : "") + (args.has("weights") ? "/w" + args.get("weights") : "") + (args.has("edges") ? "/e" + args.get("edges") : "");
     rep.tier = args.get("tier", "quick");
     weightScale() = 1.0; // model value = weight
+    if (args.has("halves")) weightScale() = 0.5; // model value = weight x 2 (weights are multiples of 1/2: sums stay exact)
     Runner<G> run(prop, rep.config, rep);
     for (auto &t : split(args.get("weights", "0,1,3"), ',')) run.weights.push_back(atol(t.c_str()));
     unsigned n = (unsigned)args.getInt("n", 3);
